@@ -450,4 +450,16 @@ pub assume_specification [char::is_ascii_hexdigit](c: &char) -> (r: bool) ensure
 pub assume_specification [char::is_ascii_whitespace](c: &char) -> (r: bool) ensures r == char_pred_spec(8, *c);
 pub assume_specification [char::is_ascii_punctuation](c: &char) -> (r: bool) ensures r == char_pred_spec(9, *c);
 pub assume_specification [char::is_control](c: char) -> (r: bool) ensures r == char_pred_spec(10, c);
+// ---- X22: the formatting machinery behind `write!` / `format!` and nested Display calls, as opaque calls that
+// ---- return normally (assumption: std formatting of std types, derived Debug, and `Formatter::write_fmt` do not panic;
+// ---- a nested Display call on a crate type is covered by that type's own verified copy)
+// (vstd already declares core::fmt::Formatter and core::fmt::Error)
+pub assume_specification<Idx> [std::ops::RangeInclusive::<Idx>::start] (_0: &std::ops::RangeInclusive<Idx>) -> &Idx;
+pub assume_specification<Idx> [std::ops::RangeInclusive::<Idx>::end] (_0: &std::ops::RangeInclusive<Idx>) -> &Idx;
+#[verifier::external_body]
+pub fn fmt_write(f: &mut core::fmt::Formatter<'_>) -> (r: Result<(), core::fmt::Error>) { Ok(()) }
+#[verifier::external_body]
+pub fn fmt_format() -> (r: String) { String::new() }
+#[verifier::external_body]
+pub fn fmt_nested<T>(x: &T, f: &mut core::fmt::Formatter<'_>) -> (r: Result<(), core::fmt::Error>) { Ok(()) }
 } // verus!
